@@ -115,8 +115,17 @@ func %(conv)s(v any) %(I)s { return v.(%(I)s) }
 //go:noinline
 func %(conv2)s(v any) %(S)s { return v.(%(S)s) }
 
+//go:noinline
+func %(mkLocal)s() any {
+	type %(L)s struct{ n int }
+	return %(L)s{1}
+}
+
 func main() {
 	t := &%(T)s{len(os.Args)}
+	if %(mode)d == 5 {
+		%(conv)s(%(mkLocal)s())
+	}
 	if %(mode)d == 3 {
 		%(conv)s(*t)
 	}
@@ -183,10 +192,10 @@ def canon_trace(t):
 
 def e2e_part(chk, tier, E, fails):
     rnd = random.Random(chk.seed * 23 + 4)
-    plan = [([], 0), ([], 1), ([], 3), ([], 4)] if tier == "quick" else [(fl, m) for fl in ([], ["-seed=o9WDTZ4CN4w"], ["-literals"]) for m in (0, 1, 2, 3, 4)] * 2
+    plan = [([], 0), ([], 1), ([], 3), ([], 4), ([], 5)] if tier == "quick" else [(fl, m) for fl in ([], ["-seed=o9WDTZ4CN4w"], ["-literals"]) for m in (0, 1, 2, 3, 4, 5)] * 2
     for i, (gflags, mode) in enumerate(plan):
         stem = "".join(rnd.choice("qxzjkv") for _ in range(5))
-        names = {k: "%s%s%s" % (k[0].upper() if k in ("T", "G", "libfn", "deep", "I", "S") else k[0].lower(), stem, k) for k in ("T", "meth", "outer", "inner", "libfn", "G", "gm", "deep", "I", "im", "S", "conv", "conv2")}
+        names = {k: "%s%s%s" % (k[0].upper() if k in ("T", "G", "libfn", "deep", "I", "S", "L") else k[0].lower(), stem, k) for k in ("T", "meth", "outer", "inner", "libfn", "G", "gm", "deep", "I", "im", "S", "conv", "conv2", "L", "mkLocal")}
         mod = "gv%s.example/tr-%d" % (stem, i)
         files = {"go.mod": "module %s\n\ngo 1.26\n" % mod,
                  "main_%s.go" % stem: TRACE_MAIN % dict(names, lib=mod + "/lib", mode=mode),
@@ -209,7 +218,7 @@ def e2e_part(chk, tier, E, fails):
             chk.notes.append("the obfuscated trace already shows original names (C02's concern)")
         if rv.returncode != 0 and "+0x" in gerr.decode("utf-8", "replace"):
             fails.append({"why": "garble reverse reports nothing replaced on an obfuscated trace", "detail": {"flags": gflags, "stderr": rv.stderr[-300:]}, "key": "reverse-exit-status"})
-        if want != got and mode in (3, 4):
+        if want != got and mode in (3, 4, 5):
             # the fault is not at a call site: garble only keeps the positions of call expressions, so the line of the
             # TOP frame cannot be restored (recorded finding); everything else in the trace still has to match
             wl, gl = want.splitlines(), got.splitlines()
@@ -223,7 +232,7 @@ def e2e_part(chk, tier, E, fails):
             wl, gl = want.splitlines(), got.splitlines()
             first = next((j for j, (a, b) in enumerate(zip(wl, gl)) if a != b), min(len(wl), len(gl)))
             fails.append({"why": "garble reverse does not restore the trace the regular -trimpath build prints",
-                          "detail": {"flags": gflags, "mode": ["panic", "debug.Stack", "goroutine panic", "failed assertion to an interface (missing method)", "failed assertion to a concrete type"][mode], "first_difference_line": first,
+                          "detail": {"flags": gflags, "mode": ["panic", "debug.Stack", "goroutine panic", "failed assertion to an interface (missing method)", "failed assertion to a concrete type", "failed assertion on a value of a function-local type"][mode], "first_difference_line": first,
                                      "want": wl[max(0, first - 1): first + 3], "got": gl[max(0, first - 1): first + 3], "obfuscated": gerr.decode("utf-8", "replace").splitlines()[max(0, first - 1): first + 3]},
                           "files": files, "key": "trace-not-restored"})
         # text with nothing obfuscated: exit status 1 and identity
